@@ -173,6 +173,19 @@ func dynZoo() []any {
 		map[string]any{"inner": map[string]any{"town": []any{1}}, "e": map[string]any{"a": "x", "b": "zz"}, "when": "2024-01-02T03:04:05Z", "age": "9223372036854775808", "ok": 2},
 		map[string]any{"tags": []any{strings.Repeat("a", 1000)}, "list": make([]any, 200)},
 	}
+	// every Go numeric kind (and named ones), at the edges of its range, alone, in records and in typed slices
+	type dNamedI64 int64
+	type dNamedF32 float32
+	nums := []any{int(7), int8(math.MinInt8), int8(math.MaxInt8), int16(math.MinInt16), int16(math.MaxInt16), int32(math.MinInt32), int32(math.MaxInt32), int64(math.MinInt64), int64(math.MaxInt64), int64(30),
+		uint(0), uint(math.MaxUint), uint8(200), uint16(math.MaxUint16), uint32(math.MaxUint32), uint64(math.MaxInt64), uint64(math.MaxInt64 + 1), uintptr(0),
+		float32(12.5), float32(math.MaxFloat32), float32(math.Inf(1)), float32(math.NaN()), float32(1e19), float64(math.MaxFloat64), math.SmallestNonzeroFloat64, math.Inf(-1), math.NaN(), math.Copysign(0, -1), float64(1 << 63), -float64(1 << 63),
+		complex64(1), complex128(complex(math.NaN(), 1)), dNamedI64(5), dNamedF32(2.5), dNamedInt(math.MaxInt), time.Duration(math.MaxInt64), time.Month(13), json.Number("1e400"), big.NewFloat(1.5)}
+	out = append(out, nums...)
+	for _, x := range nums {
+		out = append(out, map[string]any{"name": x, "age": x, "ok": x, "when": x, "tags": []any{x}, "list": []any{map[string]any{"a": x}}, "inner": map[string]any{"town": x, "tags": x}})
+	}
+	out = append(out, []int64{1, math.MaxInt64}, []int32{1}, []uint8{1, 2}, []float32{1.5}, []uint64{math.MaxUint64}, map[string]int64{"age": 30}, map[string]uint{"age": 1}, map[string]float32{"age": 1.5},
+		map[string]any{"tags": []int64{1, 2}, "list": []map[string]int64{{"a": 1}}}, [3]int{1, 2, 3}, [1]string{"a"}, map[string]any{"tags": [2]string{"a", "b"}})
 	// deep nesting
 	deep := map[string]any{"town": "x"}
 	for i := 0; i < 200; i++ {
